@@ -80,7 +80,9 @@ def run_replay(rep):
         return oracle_geo.c16_arc(tuple(rep["start"]), tuple(rep["centre"]), rep["sweep"], rep["cw"])
     if kind == "plugin":
         from . import oracle_plugin
-        return oracle_plugin.judge_plugin(rep["settings"], rep["ops"], [rep["property"]])
+        # a replay of a known finding is judged without the known-class filter
+        return oracle_plugin.judge_plugin(rep["settings"], rep["ops"], [rep["property"]],
+                                          classify=not rep.get("known_class"))
     raise ValueError("unknown replay kind %r" % kind)
 
 
